@@ -2,6 +2,7 @@
 import re
 import absint
 from engines import float_div_sites, kinds_in_type, KIND_FIELDS, kind_of_segment, kind_elements
+from engines import check_complete_iteration
 from prov import Prov, params_of, call_atoms
 
 CLAIM = ("(ROLE+KIND) at every production call of InformationContent::set_{gene,omim_disease,orpha_disease} the `total` argument derives from the "
@@ -88,6 +89,8 @@ def run(ck, prog, ctx):
             els += kind_elements(fb)
         foreign = [e for e in els if e[0] != K]
         ck.ob("KIND", "K1/%s" % rb.short, not foreign, "%s (computes the %s IC) %s" % (rb.short, K, "touches no other annotation kind" if not foreign else "reads a %s element: %s" % (foreign[0][0], foreign[0][1])), where=rb.where(foreign[0][2] if foreign else None))
+
+    check_complete_iteration(ck, "KIND", prog, sorted(by_body), "the terms of the ontology")
 
     # ---- inside the setters
     calc = prog.body(IC + "::calculate")
